@@ -1,4 +1,4 @@
-import Qfproto.CsvSim
+import QF.Core.CsvSim
 /-! Prototype: the in-place compacting quoted-field loop on a loaded buffer equals a functional scanner. -/
 namespace Sim
 
